@@ -10,6 +10,10 @@ import (
 )
 
 func TestMain(m *testing.M) {
+	if os.Getenv("VERIF_FUZZING") == "" {
+		// (the fuzzing engine re-executes os.Args[0] for its workers)
+		os.Args[0] = SelfWord
+	}
 	prop := os.Getenv("VERIF_PROP")
 	if kf := os.Getenv("VERIF_KNOWN"); kf != "" && prop != "" {
 		for _, l := range LoadKnown(kf, prop) {
